@@ -17,11 +17,11 @@ THE PROPERTY (id {pid}: {p['title']}):
 Quantified over: {p['quantifier']['text']}
 Code the property is anchored in: {', '.join(p['anchors']['files'])}
 
-TASK: produce TWO independent seeded defects (A and B) for this property, in different functions of the code the property is anchored in (or in helpers those functions call). This round is about HISTORY and SHARED STATE: each defect must be of the kind where a single call on a fresh interpreter still behaves correctly, and the property breaks only because of what happened EARLIER in the same process or because two objects now share something they should not. Realistic examples: a local scratch buffer, list or dict hoisted to module scope (or turned into a mutable default argument) "for speed" and not reset between calls; a memo/cache (functools.lru_cache, a module-level dict) added with a key that is too coarse (e.g. keyed on the names or the shape but not the dtype, the exponents or the current options); a result that is returned from the cache without a copy, so that a caller who writes to one result changes a later one; a result that now shares memory (a view instead of a copy) with an argument or with an earlier result; a global option or numpy setting that is changed during a call and not restored on some path (early return, exception); an iterator or counter that is not re-initialised; a lazily built module global that is built from the first call's arguments; state stored on a class instead of the instance. Each must:
- 1. be small and plausible - something a maintainer could commit as an optimisation or clean-up (no sabotage keyed on a magic value),
- 2. violate the property above for some SEQUENCE of public calls (say which sequence), observably through the public API, while the same final call made first in a fresh interpreter is still correct,
- 3. keep the whole existing test-suite outcome unchanged (run it: the same failures listed below and nothing else; remember the tests run in one process, so a cache can make them fail - check), and the library still imports.
-Keep the triggering sequence short (two to four calls with small ordinary inputs) and deterministic.
+TASK: produce TWO independent seeded defects (A and B) for this property, in different functions of the code the property is anchored in (or in helpers those functions call). This round is about FAST PATHS AND REFACTORS: the kind of change a maintainer makes to speed the code up or tidy it, which is right for the common inputs and wrong for a class of less common ones. Realistic examples: an early return or special case for "the easy situation" (operands already aligned, same names, same shape, scalar exponent, one term, constant polynomial, contiguous input, empty keyword set) whose test for the easy situation is slightly too generous; a Python loop rewritten as one vectorised numpy expression (`numpy.add.at`, `einsum`, fancy indexing, `numpy.unique(..., return_inverse=True)`, broadcasting instead of tiling, `cumsum` instead of a loop) that handles duplicates, ties, ordering, negative strides, 0-d or size-1 axes, or dtype promotion differently from the loop it replaces; a sort / unique / set / dict replaced by a cheaper construct that loses order or merges what must stay distinct; integer arithmetic moved to a narrower or floating type "because it is faster"; a helper call replaced by an inlined shortcut that skips a normalisation step (cleaning zero terms, sorting names, copying, restoring options); an `isinstance` test narrowed or widened; a comparison of arrays replaced by a comparison of shapes or lengths; a function that delegates to a sibling with slightly different defaults. Each must:
+ 1. be small and plausible - a change that reads as an optimisation or clean-up in a code review (no sabotage keyed on a magic value), ideally with a short comment saying why it is faster or simpler,
+ 2. violate the property above for some inputs, observably through the public API (say which class of inputs), while ordinary inputs - in particular everything the existing tests use - still behave correctly,
+ 3. keep the whole existing test-suite outcome unchanged (run it: the same failures listed below and nothing else), and the library still imports.
+The defect must be deterministic and must show on a single call (or a short composition of calls) in a fresh interpreter - this round is NOT about caches or state kept between calls.
 
 For each defect X in (A, B) write, inside {wt}/MUTANT/:
   - X.patch.diff : output of `git diff` for that change alone (relative to the unchanged checkout; each patch must apply on its own to a clean checkout with `git apply`),
